@@ -190,6 +190,20 @@ RawHeaderOK(t, S, hb) ==
              ELSE IF t = 31 THEN TRUE
              ELSE hb[7] = ZeroBits /\ hb[8] = ZeroBits
 
+\* F64Bits against the hardware: the order, equality, NaN and no-data predicates agree with what the
+\* processor says about the same 16 bytes (f64::min returns the non-NaN operand, either zero on a tie of zeros)
+TF64 ==
+    /\ Ev("f64") /\ UNCHANGED cur
+    /\ \A k \in 1..Len(Rec[l].pairs) :
+         LET p == Rec[l].pairs[k]
+             ok == ~F!IsNaN(p.a) /\ ~F!IsNaN(p.b)
+         IN  /\ F!IsNaN(p.a) = p.nanA
+             /\ F!IsNoDataBits(p.a) = p.nodataA
+             /\ ok => (F!Less(p.a, p.b) = p.lt /\ F!NumEq(p.a, p.b) = p.eq /\ F!LessEq(p.a, p.b) = p.le)
+             /\ ~ok => (~p.lt /\ ~p.eq /\ ~p.le)
+             /\ ok => (F!IsMinOf(p.minAB, << p.a, p.b >>))
+             /\ (F!IsNaN(p.a) /\ ~F!IsNaN(p.b)) => p.minAB = p.b
+
 TRaw ==
     /\ Ev("raw") /\ UNCHANGED cur
     /\ LET e == Rec[l]
@@ -204,7 +218,7 @@ TRaw ==
                     /\ \A i \in 1..Len(e.shapes) : RawReadBack(e.shapes[i], e.reads[k].items[i])
 
 Init == l = 2 /\ cur = [t |-> 0, shapes |-> << >>]
-Next == TCase \/ TWritten \/ TSizes \/ TReadback \/ TBigSize \/ THeader \/ TAccess \/ TMacro \/ TRaw
+Next == TCase \/ TWritten \/ TSizes \/ TReadback \/ TBigSize \/ THeader \/ TAccess \/ TMacro \/ TRaw \/ TF64
 Spec == Init /\ [][Next]_vars
 
 \* acceptance: every line was consumed (line 1 is the meta line)
